@@ -5,7 +5,10 @@ package static
 import (
 	"bytes"
 	"errors"
+	"io"
 	"io/ioutil"
+	"mime"
+	"mime/multipart"
 	"net/http"
 	"net/url"
 	"path/filepath"
@@ -80,8 +83,10 @@ func VerifC20Static() {
 	defer remove()
 
 	// Range header
-	kind := vf.Choice("range-kind", 4)
+	kind := vf.Choice("range-kind", 5)
 	wantStart, wantEnd, satisfiable := 0, n-1, true
+	type seg struct{ s, e int }
+	var segs []seg // range-kind 4: the two resolved ranges
 	switch kind {
 	case 1: // bytes=a-b
 		as, a := digit("range-a")
@@ -105,6 +110,24 @@ func VerifC20Static() {
 		}
 		wantStart, wantEnd = n-s, n-1
 		satisfiable = s > 0 && n > 0
+	case 4: // bytes=a-b,c-d: one multipart part per range
+		h := "bytes="
+		for i, name := range []string{"range-a", "range-c"} {
+			as, a := digit(name)
+			bs, b := digit(name + "-last")
+			if i > 0 {
+				h += ","
+			}
+			h += as + "-" + bs
+			if !(a <= b && a < n) {
+				satisfiable = false
+			}
+			if b >= n {
+				b = n - 1
+			}
+			segs = append(segs, seg{a, b})
+		}
+		req.Header["Range"] = []string{h}
 	}
 	ob := &closedBody{}
 	res := &http.Response{StatusCode: 200, Header: http.Header{}, Body: ob, ContentLength: 8, Request: req, Proto: "HTTP/1.1", ProtoMajor: 1, ProtoMinor: 1}
@@ -135,6 +158,28 @@ func VerifC20Static() {
 	case res.StatusCode == 416:
 		vf.Assert(!satisfiable, "416-only-when-the-range-cannot-be-satisfied")
 		vf.Reach("416")
+	case kind == 4:
+		vf.Assert(res.StatusCode == 206, "status-is-200-206-or-416")
+		vf.Assert(satisfiable, "206-only-for-a-satisfiable-range")
+		mt, ps, perr := mime.ParseMediaType(res.Header.Get("Content-Type"))
+		vf.Assert(perr == nil && mt == "multipart/byteranges" && ps["boundary"] != "", "multipart-content-type")
+		if perr != nil || !satisfiable {
+			return
+		}
+		mr := multipart.NewReader(bytes.NewReader(got), ps["boundary"])
+		for _, sg := range segs {
+			part, err := mr.NextPart()
+			vf.Assert(err == nil, "one-multipart-part-per-range")
+			if err != nil {
+				return
+			}
+			pb, _ := ioutil.ReadAll(part)
+			vf.Assert(bytes.Equal(pb, content[sg.s:sg.e+1]), "multipart-part-bytes-exact")
+			vf.Assert(part.Header.Get("Content-Range") == "bytes "+strconv.Itoa(sg.s)+"-"+strconv.Itoa(sg.e)+"/"+strconv.Itoa(n), "multipart-part-content-range-consistent")
+		}
+		_, err := mr.NextPart()
+		vf.Assert(err == io.EOF, "one-multipart-part-per-range")
+		vf.Reach("206-multi")
 	default:
 		vf.Assert(res.StatusCode == 206, "status-is-200-206-or-416")
 		vf.Assert(satisfiable, "206-only-for-a-satisfiable-range")
